@@ -143,19 +143,51 @@ def hist_job(comm, cfg):
             "roundtrip_ok": not any(o.startswith(b"LOADED-DIFFERS") for o in out)}
 
 
-JOBS = {"kl": kl_job, "okl": okl_job, "hist": hist_job}
+def err_job(comm, cfg):
+    """Error path under MPI: a save with overwrite=False into a directory that already holds ONE of
+    the target files fails on the task that owns this file only; it must fail on ALL tasks, with the
+    exception class of the single-process run (ensure_all_tasks_succeed)."""
+    import pickle as _pickle
+    import warnings
+    import nifty.cl as ift
+    warnings.simplefilter("ignore")
+    ift.logger.setLevel("ERROR")
+    lh, pos = _model(cfg)
+    ic = ift.AbsDeltaEnergyController(1e-10, iteration_limit=30)
+    H = ift.StandardHamiltonian(lh, ic, prior_sampling_dtype=np.float64)
+    with ift.random.Context(cfg["seed"]):
+        kl = ift.SampledKLEnergy(pos, H, cfg["n_samples"], None, mirror_samples=True, comm=comm)
+    sl = kl.samples
+    if cfg["list"] == "plain":
+        sl = ift.SampleList(list(sl.local_iterator()), comm=comm, domain=sl.domain)
+    base = os.path.join(cfg["dir"], "lst")
+    rank = 0 if comm is None else comm.Get_rank()
+    if rank == 0:
+        with open("%s.%s.pickle" % (base, cfg["stale"]), "wb") as f:
+            _pickle.dump(pos, f)
+    if comm is not None:
+        comm.Barrier()
+    try:
+        sl.save(base, overwrite=False)
+        outcome = "returned"
+    except Exception as e:  # noqa
+        outcome = type(e).__name__
+    return {"hash": outcome, "n": int(sl.n_samples), "outcome": outcome}
+
+
+JOBS = {"kl": kl_job, "okl": okl_job, "hist": hist_job, "err": err_job}
 
 
 def run_cfg(kind, cfg, ntask, timeout):
     c = dict(cfg)
     if c.get("outdir"):
         c["outdir"] = os.path.join(c["outdir"], "nt%d" % ntask)
-    if kind == "hist":
-        c["dir"] = os.path.join(c["dir"], "h%d_nt%d" % (c["seed"], ntask))
+    if kind in ("hist", "err"):
+        c["dir"] = os.path.join(c["dir"], "%s%d_%s_nt%d" % (kind, c["seed"], c.get("stale", ""), ntask))
         shutil.rmtree(c["dir"], ignore_errors=True)
         os.makedirs(c["dir"])
     res = fp.run(ntask, JOBS[kind], c, timeout=timeout)
-    if kind == "hist":
+    if kind in ("hist", "err"):
         shutil.rmtree(c["dir"], ignore_errors=True)
     return [{"status": st, "val": (v if st == "ok" else str(v)[-400:])} for st, v in res]
 
@@ -262,6 +294,14 @@ class C22(C.Check):
             cfg["seed"] = int(rng.integers(1, 10 ** 6))
             cfg["dir"] = os.path.join(ctx.run_dir(), "hist_p%d" % os.getpid())
             plan += [("hist", cfg, nt) for nt in ([1, 2, 3] if quick else [1, 2, 3, 4])]
+        # error paths: the stale file belongs to the master (0), to another task (2, 3), or is the mean file
+        err_cfgs = [{"stale": "2", "list": "resid"}, {"stale": "mean", "list": "resid"}]
+        if not quick:
+            err_cfgs += [{"stale": "0", "list": "resid"}, {"stale": "3", "list": "plain"}, {"stale": "1", "list": "plain"}]
+        for cfg in err_cfgs:
+            cfg.update({"n_samples": 2, "nonlinear": False, "seed": int(rng.integers(1, 10 ** 6)),
+                        "dir": os.path.join(ctx.run_dir(), "hist_p%d" % os.getpid())})
+            plan += [("err", cfg, nt) for nt in ([1, 2] if quick else [1, 2, 3, 4])]
         timeout = 400 if quick else 900
 
         def one(item):
@@ -330,6 +370,7 @@ class C22(C.Check):
             "input_distribution": {"forked_runs": len(self.runs), "kl_runs": sum(1 for r in self.runs if r["kind"] == "kl"),
                                    "optimize_kl_runs": sum(1 for r in self.runs if r["kind"] == "okl"),
                                    "history_runs": sum(1 for r in self.runs if r["kind"] == "hist"),
+                                   "error_path_runs": sum(1 for r in self.runs if r["kind"] == "err"),
                                    "task_counts": sorted({r["ntask"] for r in self.runs})},
             "disagreements": len(bad), "exhaustive": False, "seconds_in_forked_runs": self.t_runs,
             "partial": "real MPI is not available (no libmpi): a process-based fake communicator with mpi4py semantics is used",
@@ -345,6 +386,15 @@ class C22(C.Check):
                 ref[(r["kind"], json.dumps(r["cfg"], sort_keys=True))] = r["res"][0]
         for r in runs:
             cfg = r["cfg"]
+            if r["kind"] == "err":
+                sig = {"fn": "sample list save error path", "mode": "failure on a strict subset of tasks"}
+                one = ref.get((r["kind"], json.dumps(cfg, sort_keys=True)))
+                outs = [x["val"]["outcome"] if x["status"] == "ok" else "blocked/raised outside" for x in r["res"]]
+                want = one["val"]["outcome"] if one and one["status"] == "ok" else None
+                if want is not None and any(o != want for o in outs):
+                    out.append((sig, "%s list save(overwrite=False) with stale file %s on %d tasks: outcomes per task %r, single process: %s -- a failure on some tasks must surface on all tasks with the same exception class" % (
+                        cfg["list"], cfg["stale"], r["ntask"], outs, want), {"kind": r["kind"], "cfg": cfg, "ntask": r["ntask"]}))
+                continue
             if r["kind"] == "hist":
                 sig = {"fn": "sample list save/overwrite/load history", "mode": "decreasing counts"}
             else:
@@ -384,7 +434,7 @@ class C22(C.Check):
         if cfg.get("outdir"):
             cfg["outdir"] = os.path.join(ctx.run_dir(), "replay_okl_p%d" % os.getpid())
             shutil.rmtree(cfg["outdir"], ignore_errors=True)
-        if i["kind"] == "hist":
+        if i["kind"] in ("hist", "err"):
             cfg["dir"] = os.path.join(ctx.run_dir(), "replay_hist_p%d" % os.getpid())
         runs = [{"kind": i["kind"], "cfg": cfg, "ntask": nt, "res": run_cfg(i["kind"], cfg, nt, 600)} for nt in sorted({1, i["ntask"]})]
         return bool(self._judge(runs))
